@@ -1182,11 +1182,12 @@ fn gen_script_grids(rng: &mut Rng, tier: Tier, lines: &mut Vec<String>) {
         }
         let Some((tables, _)) = sql::parse_case(&case.line) else { continue };
         let max_rows = tables.iter().map(|t| t.rows.len()).max().unwrap_or(0).max(1);
-        // keep the largest possible join below ~3 000 combinations (the engine joins by nested loops, and the Lean
+        // keep the largest possible join below ~250 000 combinations (the engine joins by nested loops, and the Lean
         // model that answers the same script is a plain list program)
         let budget = match tables.len() {
-            1 => 300,
-            2 => 60,
+            // a statement may join a table with itself up to three times
+            1 => 60,
+            2 => 40,
             _ => 16,
         };
         let factor = (budget / max_rows).clamp(1, 60);
